@@ -115,6 +115,8 @@ def order_sound(ctx, rep, r1, r2, r3):
                 continue
             if k == req:
                 continue
+            if k[0] == 'comp' and len(k) == 4 and len(k[3]) == 1 and strip_coll(k[3][0][1]) == req:
+                continue        # judged through the quantified fact derived from its emptiness
             extras.append((k, v))
         rep.check(not extras, r3, site + " guard has no extra condition", fn,
                   "yield additionally requires %s" % [(T.show(k, 3), v) for k, v in extras],
@@ -158,11 +160,14 @@ def progress_or_raise(ctx, rep, rule):
 
     def is_counter(t):
         return t[0] in ('pos', 'acc') or (t[0] == 'const' and isinstance(t[1], int) and not isinstance(t[1], bool))
-    for st in ends + [e.st for e in an.events('RAISE')]:
+    nends = len(ends)
+    for i, st in enumerate(ends + [e.st for e in an.events('RAISE')]):
         for k, v in st.facts.items():
             if k[0] == 'cmp' and k[1] in ('>=', '<=', '==', '!=', '<', '>'):
                 a, b = k[2], k[3]
                 cnt = lambda t: t[0] in ('pos', 'acc')
+                if i >= nends and k[1] in ('==', '!=') and is_counter(a) and is_counter(b):
+                    continue        # a raise decided by comparing the count with an earlier count of itself
                 if (cnt(a) and b != LENM) or (cnt(b) and a != LENM):
                     rep.fail(rule, "%s scan exit tests the count against the number of members" % fn, fn,
                              "the scan leaves its loop on `%s`" % T.show(k, 3),
@@ -201,12 +206,22 @@ def _all_nested_ok(ctx, v):
     if not (v[0] == 'call' and v[1] == 'all' and len(v[2]) == 1 and v[2][0][0] == 'comp'):
         return False
     c = v[2][0]
-    if len(c[3]) != 1 or c[3][0][2]:
+    if len(c[3]) != 1:
         return False
-    key, it, _ = c[3][0]
+    key, it, conds0 = c[3][0]
     elem = T.mk(('elem', it, key))
     if c[2] != T.mk(('mcall', elem, 'check_cycles', (), ())):
         return False
+    if conds0:
+        # one comprehension: all(x.check_cycles() for x in self.topological_order() if isinstance(x, Sched))
+        g = strip_coll(it)
+        if g[0] != 'gen' or not g[1].endswith('topological_order') or len(conds0) != 1:
+            return False
+        cd = conds0[0]
+        if not (cd[0] == 'call' and cd[1] == 'isinstance' and cd[2][0] == elem and cd[2][1][0] == 'class'):
+            return False
+        cls = ctx.prog.classes.get(cd[2][1][1])
+        return cls is not None and r.sched in cls.mro
     src_ = strip_coll(it)
     if src_[0] != 'comp' or len(src_[3]) != 1:
         return False
@@ -334,8 +349,8 @@ def check_cycles_rules(ctx, rep, rule):
         f = p.supplier(r.sched, name)
         if f is None:
             continue
-        uses = [n for n in walk_local(f.node) if isinstance(n, ast.For) and isinstance(n.iter, ast.Call)
-                and dotted(n.iter.func) == 'self.topological_order']
+        from .common import topo_loops
+        uses = topo_loops(ctx, f)
         rep.check(bool(uses), rule, "%s iterates in topological order" % f.qualname, f.qualname,
                   "%s does not loop over self.topological_order()" % f.qualname,
                   "jobs are numbered / listed / drawn in an order that is not a linear extension")
@@ -869,41 +884,47 @@ def _step_shape(ctx, rep, rule, stepf, attparam):
                          "`%s` adds every neighbour without testing membership in self.jobs" % src(bulk[0]),
                          "jobs that are not members of this scheduler are returned (e.g. after a raw remove())")
                 return
-            rep.error(rule, "%s: no inner loop over getattr(start, attribute)" % fn)
-            return
-        i = inner[0]
-        ok = isinstance(i.iter.args[0], ast.Name) and isinstance(o.target, ast.Name) \
-            and i.iter.args[0].id == o.target.id and isinstance(i.iter.args[1], ast.Name) \
-            and i.iter.args[1].id == attparam
-        rep.check(ok, rule, "%s neighbours read from the start job along the requested relation" % fn, fn,
-                  "`%s`" % src(i.iter), "the step follows another relation than the one requested")
-        rep.check(not _may_stop_early(i), rule, "%s every neighbour considered" % fn, fn,
-                  "the loop over the neighbours can stop early", "some neighbours are missed")
-        tgt = i.target.id if isinstance(i.target, ast.Name) else None
-        adds = [c for c in ast.walk(i) if isinstance(c, ast.Call) and isinstance(c.func, ast.Attribute)
-                and c.func.attr == 'add' and c.args and isinstance(c.args[0], ast.Name) and c.args[0].id == tgt]
-        rep.check(bool(adds), rule, "%s neighbours collected" % fn, fn, "no `<result>.add(<neighbour>)`",
-                  "the step returns nothing")
-        member_filter = False
-        for a in adds:
-            res = a.func.value.id if isinstance(a.func.value, ast.Name) else None
-            for test, pol in _guards_of(a, i):
-                t = ast.unparse(test)
-                if isinstance(test, ast.Compare) and len(test.ops) == 1 and isinstance(test.left, ast.Name) \
-                        and test.left.id == tgt:
-                    right = ast.unparse(test.comparators[0])
-                    isin = isinstance(test.ops[0], ast.In) == pol if isinstance(test.ops[0], (ast.In, ast.NotIn)) else None
-                    if right == 'self.jobs' and isin is True:
-                        member_filter = True
-                        continue
-                    if right == res and isin is False:
-                        continue
-                rep.fail(rule, "%s:%d neighbour kept only under an extra condition" % (stepf.module.relpath, a.lineno),
-                         fn, "`%s` guarded by `%s` is %s" % (src(a), t, pol),
-                         "some direct neighbours that are members are not returned")
-        rep.check(member_filter, rule, "%s members only" % fn, fn,
-                  "neighbours are collected without testing membership in self.jobs",
-                  "jobs that are not members of this scheduler are returned")
+            # no explicit inner loop: the step is judged on the set-builder terms it returns (below)
+            outer = []
+            comp = comp or [o]
+            inner = None
+        i = inner[0] if inner else None
+        if i is None:
+            pass
+        else:
+          if True:
+            ok = isinstance(i.iter.args[0], ast.Name) and isinstance(o.target, ast.Name) \
+                and i.iter.args[0].id == o.target.id and isinstance(i.iter.args[1], ast.Name) \
+                and i.iter.args[1].id == attparam
+            rep.check(ok, rule, "%s neighbours read from the start job along the requested relation" % fn, fn,
+                      "`%s`" % src(i.iter), "the step follows another relation than the one requested")
+            rep.check(not _may_stop_early(i), rule, "%s every neighbour considered" % fn, fn,
+                      "the loop over the neighbours can stop early", "some neighbours are missed")
+            tgt = i.target.id if isinstance(i.target, ast.Name) else None
+            adds = [c for c in ast.walk(i) if isinstance(c, ast.Call) and isinstance(c.func, ast.Attribute)
+                    and c.func.attr == 'add' and c.args and isinstance(c.args[0], ast.Name) and c.args[0].id == tgt]
+            rep.check(bool(adds), rule, "%s neighbours collected" % fn, fn, "no `<result>.add(<neighbour>)`",
+                      "the step returns nothing")
+            member_filter = False
+            for a in adds:
+                res = a.func.value.id if isinstance(a.func.value, ast.Name) else None
+                for test, pol in _guards_of(a, i):
+                    t = ast.unparse(test)
+                    if isinstance(test, ast.Compare) and len(test.ops) == 1 and isinstance(test.left, ast.Name) \
+                            and test.left.id == tgt:
+                        right = ast.unparse(test.comparators[0])
+                        isin = isinstance(test.ops[0], ast.In) == pol if isinstance(test.ops[0], (ast.In, ast.NotIn)) else None
+                        if right == 'self.jobs' and isin is True:
+                            member_filter = True
+                            continue
+                        if right == res and isin is False:
+                            continue
+                    rep.fail(rule, "%s:%d neighbour kept only under an extra condition" % (stepf.module.relpath, a.lineno),
+                             fn, "`%s` guarded by `%s` is %s" % (src(a), t, pol),
+                             "some direct neighbours that are members are not returned")
+            rep.check(member_filter, rule, "%s members only" % fn, fn,
+                      "neighbours are collected without testing membership in self.jobs",
+                      "jobs that are not members of this scheduler are returned")
     # the value returned, read as set-builder terms (the comprehension form, and what the collecting
     # loops fold into): {n for s in starts for n in getattr(s, att) if n in self.jobs}
     an, ip, out = ctx.explore(stepf, model=GraphModel)
@@ -956,35 +977,71 @@ class ClosureModel(GraphModel):
 
     def on_call(self, ip, node, fterm, args, kws, st, fr):
         f = node.func
+        name = None
         if isinstance(f, ast.Attribute) and isinstance(f.value, ast.Name) and f.attr in ('add', 'append') \
-                and fr.depth == 0 and st.var(fr.fid, f.value.id) is not None and f.value.id != 'self' and args:
+                and st.var(fr.fid, f.value.id) is not None and f.value.id != 'self' and args:
+            if fr.depth == 0:
+                name = f.value.id
+            else:
+                # inside a helper: the collection it was handed is the caller's named result set
+                cur = st.var(fr.fid, f.value.id)
+                named = [x for x in ([cur] + list(T.union_items(cur)) if cur[0] == 'union' else [cur])
+                         if x[0] == 'coll']
+                if named:
+                    name = named[0][1]
+        if name is not None:
             conds = tuple(sorted(((k, v) for k, v in st.facts.items()
                                   if T.contains(k, args[0]) and not any(k == c.iter for c in ip.loopctx)), key=repr))
-            self.ev(ip, 'LADD', node, st, fr, name=f.value.id, arg=args[0], conds=conds,
+            self.ev(ip, 'LADD', node, st, fr, name=name, arg=args[0], conds=conds,
                     coll=st.var(fr.fid, f.value.id))
             st = st.set(added=True)
             # fall through to the generic handling of the mutation, in the new state
             return ip.call_generic(node, fterm, args, kws, st, fr)
         return GraphModel.on_call(self, ip, node, fterm, args, kws, st, fr)
 
+    def _adding_helpers(self, node, fr):
+        """(local name) handed, in `node`, to a helper of the class that adds to it in place"""
+        from ..flow import _mutates_param
+        out = set()
+        for n in ast.walk(node):
+            if isinstance(n, ast.Call) and isinstance(n.func, ast.Attribute) and isinstance(n.func.value, ast.Name) \
+                    and n.func.value.id == 'self' and fr.func.cls is not None:
+                g = self.prog.supplier(fr.func.cls, n.func.attr)
+                if g is None:
+                    continue
+                ps = list(g.params)[0 if g.is_static else 1:]
+                for pn, a in zip(ps, n.args):
+                    if isinstance(a, ast.Name) and _mutates_param(g, pn):
+                        out.add(a.id)
+        return out
+
+    def on_while_head(self, ip, ctx, st, fr):
+        if ip.in_summary or fr.depth != 0:
+            return st
+        # the sets the loop adds to (itself, or through a helper it hands them to) are named, not expanded:
+        # their own term would otherwise contain itself (elements of the result are computed from elements
+        # of the result)
+        names = {n.func.value.id for n in ast.walk(ctx.node)
+                 if isinstance(n, ast.Call) and isinstance(n.func, ast.Attribute)
+                 and n.func.attr in ('add', 'append') and isinstance(n.func.value, ast.Name)}
+        names |= self._adding_helpers(ctx.node, fr)
+        for nm in sorted(names):
+            cur = st.var(fr.fid, nm)
+            if cur is None:
+                continue
+            opaque = T.mk(('coll', nm))
+            if not st.a('seeded'):
+                self.ev(ip, 'SEED', ctx.node, st, fr, name=nm, value=cur)
+            st = st.with_var(fr.fid, nm, opaque)
+        st = st.set(seeded=True)
+        if self._adding_helpers(ctx.node.test, fr):
+            # the pass is made by the loop test itself: it starts here
+            st = st.set(added=False, pass_in_test=True)
+        return st
+
     def on_iter(self, ip, ctx, st, fr):
-        if ctx.kind == 'while' and not ip.in_summary:
+        if ctx.kind == 'while' and not ip.in_summary and not st.a('pass_in_test'):
             st = st.set(added=False)
-            if fr.depth == 0:
-                # the sets the loop adds to are named, not expanded: their own term would otherwise
-                # contain itself (elements of the result are computed from elements of the result)
-                names = {n.func.value.id for n in ast.walk(ctx.node)
-                         if isinstance(n, ast.Call) and isinstance(n.func, ast.Attribute)
-                         and n.func.attr in ('add', 'append') and isinstance(n.func.value, ast.Name)}
-                for nm in sorted(names):
-                    cur = st.var(fr.fid, nm)
-                    if cur is None:
-                        continue
-                    opaque = T.mk(('coll', nm))
-                    if not st.a('seeded'):
-                        self.ev(ip, 'SEED', ctx.node, st, fr, name=nm, value=cur)
-                    st = st.with_var(fr.fid, nm, opaque)
-                st = st.set(seeded=True)
         if ctx.kind == 'for' and not ip.in_summary and fr.depth == 0:
             self.ev(ip, 'PASSLOOP', ctx.node, st, fr, iter=ctx.iter,
                     in_while=any(c.kind == 'while' for c in ip.loopctx),
@@ -1141,6 +1198,19 @@ def _traversal(ctx, rep, rule):
 
 
 # ==================================================================== C18
+def _setalg(t):
+    """method spellings of set algebra rewritten as operators: a.intersection(b) -> a & b"""
+    if not isinstance(t, tuple) or not t:
+        return t
+    if t[0] == 'mcall' and t[2] == 'intersection' and len(t[3]) == 1 and not t[4]:
+        return T.mk(('binop', 'BitAnd', _setalg(t[1]), _setalg(t[3][0])))
+    if t[0] == 'union':
+        return T.union(*[_setalg(x) for x in t[1]]) if t[1] else t
+    if t[0] == 'binop':
+        return T.mk(('binop', t[1], _setalg(t[2]), _setalg(t[3])))
+    return t
+
+
 def surgery(ctx, rep, r1, r2, r3):
     r = ctx.roles
     p = ctx.prog
@@ -1154,6 +1224,14 @@ def surgery(ctx, rep, r1, r2, r3):
         an, ip, out = ctx.explore(f, model=GraphModel)
         fn = f.qualname
         stores = [e for e in an.events('STORE') if e.data['attr'] == 'jobs' and e.data['obj'] == T.SELF]
+        for e in stores:
+            e.data['val'] = _setalg(e.data['val'])
+        # `self.jobs.intersection_update(X)` is `self.jobs &= X`
+        for e in an.events('MUT'):
+            if e.data['attr'] == 'jobs' and e.data['obj'] == T.SELF and e.data['how'] == 'intersection_update' \
+                    and len(e.data['args']) == 1:
+                e.data['val'] = T.mk(('binop', 'BitAnd', MEMBERS, _setalg(e.data['args'][0])))
+                stores.append(e)
         rep.need(r3 + ":" + name, len(stores), 1, "stores to the member set")
         sani = [e for e in an.events('CALL') if e.data['meth'] == 'sanitize' and e.data['recv'] == T.SELF]
         # sanitize post-dominates the narrowing: every normal end was preceded by it
